@@ -425,11 +425,13 @@ theorem weighted_eq_of_all_predicted (t p : List Int) (x : Rat) (hlen : t.length
     unfold Spec.weightedDef
     rw [← h, hlenf, htot]
     congr 1
-    unfold tab
+    have hmap : ∀ (k : Nat) (f g : Nat → Rat), (∀ l, l < k → f l = g l) → tab k f = (List.range k).map g := by
+      intro k f g hfg
+      unfold tab
+      exact List.map_congr_left (fun l hl => hfg l (List.mem_range.mp hl))
     congr 1
-    apply List.map_congr_left
-    intro l hl
-    have hl' := List.mem_range.mp hl
+    apply hmap
+    intro l hl'
     rw [(hsc l hl').2.2, hrows l hl', tab_getD, if_pos hl']
 
 end SkNet.ClassMetrics
